@@ -2,7 +2,7 @@
 //
 // Drives the REAL Boost.PropertyTree and the REAL amgcl params structs instantiated at backend::builtin<double>.
 // Ops (the same text is answered by lean/Amgcl/Driver/Params.lean from the table regenerated from /repo):
-//   params_fields S | params_roundtrip S field value | params_export_keys S | params_unknown S key
+//   params_compiles S | params_fields S | params_roundtrip S field value | params_export_keys S | params_unknown S key
 //   params_enum_print E ident | params_enum_parse E text | params_runtime E ident-or-text
 // Oracles (independent of the Lean model; judged against the hand-written registry below):
 //   * a documented value member set through the tree is exported unchanged by params::get
@@ -168,15 +168,21 @@ static void cleanup_probe() { for (auto &kv : probes()) if (kv.second.tried && k
 static Result probe_exec(const Toks &t, const std::string &id) {
     Result r; Probe &p = ensure_probe(id);
     std::string line; for (size_t i = 0; i < t.size(); ++i) line += (i ? " " : "") + t[i];
+    if (t[0] == "params_compiles") {
+        if (t.size() != 2) throw bad_input("args");
+        r.out = p.ok ? "yes" : "no"; r.nontrivial = true; r.tag(p.ok ? "compiles" : "does_not_compile");
+        if (!p.ok) r.fail("struct " + t[1] + ": params (constructor + get) does not compile when instantiated: " + p.err);
+        return r;
+    }
     if (!p.ok) {
-        // ops that are malformed stay malformed
+        // the finding is reported once, by `params_compiles`; every other op on the struct is `ill-typed`
+        // (ops that are malformed stay malformed)
         const vp::StructReg *S = vp::find_struct(t.size() > 1 ? t[1] : ""); if (!S) throw bad_input("struct");
-        if (t[0] == "params_fields") { std::vector<std::string> v; for (auto &f : S->fields) v.push_back(f.name + ":" + f.kind); std::sort(v.begin(), v.end()); r.out = vp::keys_line(v); r.nontrivial = true; r.tag("fields"); return r; }
+        if (t[0] == "params_fields") { if (t.size() != 2) throw bad_input("args"); std::vector<std::string> v; for (auto &f : S->fields) v.push_back(f.name + ":" + f.kind); std::sort(v.begin(), v.end()); r.out = vp::keys_line(v); r.nontrivial = true; r.tag("fields"); return r; }
         if (t[0] == "params_roundtrip") { if (t.size() != 4) throw bad_input("args"); const vp::FieldReg *F = S->field(t[2]); if (!F || F->kind == "child") throw bad_input("field"); }
         else if (t[0] == "params_unknown") { if (t.size() != 3) throw bad_input("args"); }
         else if (t.size() != 2) throw bad_input("args");
-        r.out = "ill-typed"; r.nontrivial = true; r.tag("does_not_compile");
-        r.fail("struct " + t[1] + ": params (constructor + get) does not compile when instantiated: " + p.err);
+        r.out = "ill-typed"; r.tag("ill_typed");
         return r;
     }
     int rc; std::string out = slurp_cmd(sh_quote(p.exe) + " " + sh_quote(line) + " 2>&1", rc);
@@ -304,9 +310,14 @@ static Result execute(const Toks &t) {
     build_registry();
     Result r;
     const std::string &op = t[0];
-    if ((op == "params_fields" || op == "params_roundtrip" || op == "params_export_keys" || op == "params_unknown") && t.size() > 1) {
+    if ((op == "params_fields" || op == "params_roundtrip" || op == "params_export_keys" || op == "params_unknown" || op == "params_compiles") && t.size() > 1) {
         const vp::StructReg *S = vp::find_struct(t[1]);
         if (S && S->external) return probe_exec(t, S->probe_id);
+    }
+    if (op == "params_compiles") {     // a struct registered with its real type is part of this translation unit
+        Cur c(t); const std::string s = c.tok(); c.expect_end();
+        if (!vp::find_struct(s)) throw bad_input("struct");
+        r.out = "yes"; r.nontrivial = true; r.tag("compiles"); return r;
     }
     if (vp::struct_op(t, r)) return r;
     if (vp::enum_text_op(t, r)) return r;
